@@ -229,3 +229,100 @@ func runOne(stackp *[]frame, visited map[string]struct{}, cfg Config, res *Resul
 	s.killAll()
 	cur = nil
 }
+
+// CanonResult describes the single execution made by RunCanonical.
+type CanonResult struct {
+	Steps       int  // scheduler decisions executed
+	MultiChoice int  // decisions at which more than one choice was enabled (the rule picked one)
+	Complete    bool // a terminal state was reached
+	Failed      bool // an oracle recorded a violation
+	Aborted     bool // step bound or deadline reached before a terminal state
+}
+
+// RunCanonical makes ONE execution of the scenario under the canonical
+// non-preempting schedule: the thread that executed the previous decision goes
+// on while it has a pending operation (it parks if that operation cannot
+// complete); otherwise the runnable thread with the lowest id goes; a select
+// with several ready cases takes the first one in source order. Nothing is
+// enumerated, no state is hashed: the cost is linear in the length of the
+// execution, so very long executions (deep backlogs) are affordable. The same
+// channel model, the same Harness oracles (Quiescent, Panicked, Failed) and
+// phase protocol as Explore apply.
+func RunCanonical(setup func(s *Sched) Harness, maxSteps int, deadline time.Time) *CanonResult {
+	res := &CanonResult{}
+	s := &Sched{yield: make(chan struct{})}
+	cur = s
+	h := setup(s)
+	s.startNewborns()
+	var trace []step
+	var last *Thread
+	for {
+		if p := s.panicked; p != nil {
+			h.Panicked(p)
+		}
+		if h.Failed() {
+			res.Failed = true
+			break
+		}
+		choices, _ := s.choices()
+		if len(choices) == 0 {
+			cont := h.Quiescent()
+			if h.Failed() {
+				res.Failed = true
+				break
+			}
+			if !cont {
+				res.Complete = true
+				break
+			}
+			s.startNewborns()
+			choices, _ = s.choices()
+			if len(choices) == 0 {
+				HarnessError("next phase started no runnable thread")
+			}
+		}
+		if (maxSteps > 0 && res.Steps >= maxSteps) || (!deadline.IsZero() && res.Steps%4096 == 4095 && time.Now().After(deadline)) {
+			res.Aborted = true
+			break
+		}
+		pick := 0
+		if last != nil {
+			for i, c := range choices {
+				if c.T == last {
+					pick = i
+					break
+				}
+			}
+		}
+		if len(choices) > 1 {
+			res.MultiChoice++
+		}
+		ch := choices[pick]
+		last = ch.T
+		res.Steps++
+		st := step{name: ch.T.Name, site: ch.T.site, idx: ch.Idx}
+		if ch.Idx >= 0 {
+			st.c = ch.T.cases[ch.Idx]
+		}
+		trace = append(trace, st)
+		s.apply(ch)
+		h.Observe()
+	}
+	if res.Failed {
+		// only the ends are formatted: the schedule is determined by the rule
+		const head, tail = 24, 40
+		if len(trace) <= head+tail {
+			h.EndOfExecution(fmtTrace(trace), res.Complete)
+		} else {
+			out := fmtTrace(trace[:head])
+			out = append(out, fmt.Sprintf("... %d decisions of the canonical schedule elided ...", len(trace)-head-tail))
+			out = append(out, fmtTrace(trace[len(trace)-tail:])...)
+			h.EndOfExecution(out, res.Complete)
+		}
+	} else {
+		h.EndOfExecution(nil, res.Complete)
+	}
+	s.killAll()
+	cur = nil
+	return res
+}
